@@ -242,6 +242,33 @@ def model_check(module, cfg, expect_ok=True, **kw):
     return res, "infra"
 
 
+def apalache_check(module, constants, inv, length=0, timeout=900, label="apa", init="Init"):
+    """Symbolic check with Apalache (Z3): returns (res, verdict) shaped like model_check's result.
+    constants: name -> TLA+ literal.  verdict: ok / violated:<inv> / infra."""
+    work = scratch(label)
+    cfg = work / "apalache.cfg"
+    cfg.write_text(f"INIT {init}\nNEXT Next\n" + "".join(f"CONSTANT {k} = {v}\n" for k, v in constants.items())
+                   + f"INVARIANT {inv}\n")
+    cmd = ["apalache-mc", "check", f"--config={cfg}", f"--length={length}", f"--out-dir={work / 'out'}",
+           str(SPEC / f"{module}.tla")]
+    t0 = time.time()
+    try:
+        r = subprocess.run(cmd, capture_output=True, text=True, timeout=timeout, cwd=str(work))
+        out = r.stdout + r.stderr
+    except subprocess.TimeoutExpired as e:
+        out = "TIMEOUT " + str(e)
+    wall = time.time() - t0
+    res = {"out": out, "distinct": 0, "generated": 0, "wall": wall, "cmd": " ".join(cmd)}
+    if "The outcome is: NoError" in out and "EXITCODE: OK" in out:
+        verdict = "ok"
+    elif "The outcome is: Error" in out and "invariant" in out and "violated" in out:
+        verdict = "violated:" + inv
+    else:
+        verdict = "infra"
+    shutil.rmtree(work, ignore_errors=True)
+    return res, verdict
+
+
 # --------------------------------------------------------------------------- trace validation
 def split_traces(trace_files, reset="R", parts=None):
     """Re-shard NDJSON traces at execution boundaries (reset events) into about `parts` files of similar size."""
